@@ -35,11 +35,14 @@ CIRCUITS = {
     "RZ(a).H": lambda p: [qp.RZ(p[0], 0), qp.H(0)], "H.S": lambda p: [qp.H(0), qp.S(0)], "S.Y.RotXZX(a,b,g)": lambda p: [qp.S(0), qp.Y(0), RotXZX(p[0], p[1], p[2], 0)],
     "CNOT": lambda p: [qp.CNOT([0, 1])], "CNOT(1,0)": lambda p: [qp.CNOT([1, 0])],
     "H(1).CNOT(0,1)": lambda p: [qp.H(1), qp.CNOT([0, 1])],
+    "H(1).S(0) (wires appear as 1, 0)": lambda p: [qp.H(1), qp.S(0)],
+    "RZ(a,1).H(0).X(1).S(1) (wires appear as 1, 0)": lambda p: [qp.RZ(p[0], 1), qp.H(0), qp.X(1), qp.S(1)],
     "RZ(a).H.S.H.S.H (wire recycling)": lambda p: [qp.RZ(p[0], 0), qp.H(0), qp.S(0), qp.H(0), qp.S(0), qp.H(0)],
     "RZ(a,1).CNOT(0,1) (wire recycling)": lambda p: [qp.RZ(p[0], 1), qp.CNOT([0, 1])],
 }
 # circuits for the tracker: only the first gate of a wire may be non-Clifford (documented restriction of the tracker)
-TRACKER = ["H", "S", "RZ(a)", "X.H.Z", "RZ(a).H", "H.S", "CNOT", "CNOT(1,0)", "H(1).CNOT(0,1)"]
+TRACKER = ["H", "S", "RZ(a)", "X.H.Z", "RZ(a).H", "H.S", "H(1).S(0) (wires appear as 1, 0)", "RZ(a,1).H(0).X(1).S(1) (wires appear as 1, 0)", "CNOT", "CNOT(1,0)", "H(1).CNOT(0,1)"]
+HEAVY = {"CNOT", "CNOT(1,0)", "H(1).CNOT(0,1)", "S.Y.RotXZX(a,b,g)", "RZ(a,1).CNOT(0,1) (wire recycling)"}  # minutes per item: thorough tier only
 # number of leading measurements that are symbolic; the remaining ones take the listed constant patterns
 SYMBOLIC_PREFIX = {"RZ(a).H.S.H.S.H (wire recycling)": 4, "RZ(a,1).CNOT(0,1) (wire recycling)": 4}
 
@@ -71,7 +74,8 @@ def run_pattern(cname, p, diag, bit_of, amps, tracker=False, tail=0):
     if tracker:
         ops = [o for o in ops if not (dynsim.is_cond(o) and o.base.name in ("PauliX", "PauliZ"))]
     sim = mbqc.ActiveSim()
-    sim.load(wires, amps)
+    # convert_to_mbqc_formalism places logical wire tape.wires[i] on physical qubit i (QubitMgr hands out 0, 1, ... in tape order)
+    sim.load([list(tape.wires).index(w) for w in wires], amps)
     outcome = {}
 
     def oc(op):
@@ -318,13 +322,15 @@ def run(ctx):
     ctx.level = "proof"
     items = [("commute", None, None, None)]
     for c in CIRCUITS:
+        if ctx.tier == "quick" and c in HEAVY:
+            continue
         for diag in (True, False):
-            if ctx.tier == "quick" and "CNOT" in c and not diag and c != "CNOT":
-                continue
             pats = [None] if c not in SYMBOLIC_PREFIX else [0, 1]
             for pat in pats:
                 items.append((c, diag, False, pat))
     for c in TRACKER:
+        if ctx.tier == "quick" and c in HEAVY:
+            continue
         for diag in ((True,) if ctx.tier == "quick" else (True, False)):
             items.append((c, diag, True, None))
     if ctx.only:
